@@ -2,4 +2,5 @@
 EXTENDS DecodeHistory
 MCMods == {"m1", "m2"}
 MCAbsent == {"a1"}
+MCBroken == {"b1"}
 =============================================================================
